@@ -15,15 +15,18 @@ require (
 	github.com/apparentlymart/go-textseg/v13 v13.0.0 // indirect
 	github.com/bahlo/generic-list-go v0.2.0 // indirect
 	github.com/buger/jsonparser v1.1.1 // indirect
+	github.com/gammazero/deque v0.2.1 // indirect
 	github.com/go-openapi/inflect v0.19.0 // indirect
 	github.com/google/go-cmp v0.5.9 // indirect
 	github.com/google/uuid v1.3.0 // indirect
 	github.com/hashicorp/hcl/v2 v2.13.0 // indirect
 	github.com/mailru/easyjson v0.7.7 // indirect
 	github.com/mitchellh/go-wordwrap v0.0.0-20150314170334-ad45545899c7 // indirect
+	github.com/ngicks/eventqueue v0.0.0-20230822171926-4da05f80335a // indirect
 	github.com/ngicks/generic v0.0.0-20230320024227-32842ed7ed0f // indirect
 	github.com/ngicks/genericcontainer v0.0.0-20231218091927-6099d7e84fb9 // indirect
 	github.com/ngicks/mockable v0.0.0-20230524100816-106941ea893e // indirect
+	github.com/robfig/cron/v3 v3.0.1 // indirect
 	github.com/wk8/go-ordered-map/v2 v2.1.8 // indirect
 	github.com/zclconf/go-cty v1.8.0 // indirect
 	golang.org/x/exp v0.0.0-20230315142452-642cacee5cc0 // indirect
